@@ -342,6 +342,15 @@ func init() {
 							a := g.anchor()
 							as = append(as, a)
 							t = "item " + a
+							// an item that reads like the introduction of a list
+							switch rng.Intn(8) {
+							case 0:
+								t += " with the following:"
+							case 1:
+								t += " has these options"
+							case 2:
+								t += " lists the items"
+							}
 						}
 						li.Items = append(li.Items, model.ListItem{Text: t, Level: lvl})
 						lines = append(lines, strings.Repeat("  ", lvl)+"- "+t)
